@@ -13,8 +13,8 @@ DEFAULT_NOTE = ('Trusted: Coq 8.16.1 kernel (incl. vm_compute; no native_compute
 LEVEL_TEXT = {
  'C01': 'Coq theorems over the faithful MemMapFs model (coq/Model/MemFs.v): child-index invariant WF preserved by every well-formed op sequence, failed calls are no-ops, listing/paging, rename moves subtrees, spelling (clean) invariance, a simulation against an independent POSIX spec (coq/Model/Posix.v) for the portable class — which includes creating below a regular file (ENOTDIR on both sides) — and, for every state and every name, nothing is created below a regular file. Tie: every generated sequence (well-formed and malformed) is run on the real MemMapFs, on the extracted model (incl. full dumps of the path map and child index) and, inside the proved class, on the extracted POSIX spec; oracle: the same well-formed program on OsFs in a fresh temp dir (step results + final Stat/ReadDir/ReadFile sweep).',
  'C02': 'Coq refinement theorem: for all contents, handle sets and op sequences the model of mem.File equals the flat byte-array spec (ByteFile.v) under projection, never panics, inert handles never change data. Tie: differential run of mem.File (direct handles and through MemMapFs) against model and spec, exhaustive over short sequences.',
- 'C03': 'PARTIAL. Coq model of the lock discipline of memmap.go/mem/file.go (one action per lock operation; the per-function lock table is regenerated from the AST on every run and must equal the declared one) with theorems over all schedules and all programs of the class: every conflicting pair of annotated accesses is ordered (lockset / happens-before), no deadlock (lock order), no unlock error, no lock leak, locks balanced after a panic, quiescent tree consistency. The Go memory model, the race detector and the scheduler are outside the model: -race stress in child processes (pair matrix + random program sets, watchdog for deadlocks, race-report parser) and a post-quiescence consistency sweep search for failing executions.',
- 'C04': 'PARTIAL. Coq theorem: every history of a machine whose calls take effect in one atomic step of the sequential model is linearizable (any threads, any schedule); methods with several critical sections are modelled by explicit section tables whose shape is read from the source on every run (today: all in the one-section position, by reflexivity facts), with refutation theorems for every split shape. Tie/search: concurrent histories of the real MemMapFs (stress under real preemption, window programs, and an instrumented cooperative scheduler exploring schedules by DFS/random) are searched for a linearization against the EXTRACTED sequential model (verified checker) plus direct checks of the exactly-one-winner and torn-read clauses. Outside the model: which Go lock protects which section against which handle operation.',
+ 'C03': 'PARTIAL. Coq model of the lock discipline of memmap.go/mem/file.go (one action per lock operation; the per-function lock table is regenerated from the AST on every run and must equal the declared one) with theorems over all schedules and all programs of the class: every conflicting pair of annotated accesses is ordered (lockset / happens-before), no deadlock (lock order incl. nested directory mutexes), no unlock error, no lock leak, locks balanced after a panic, and — with no sequential hypothesis — every configuration of every schedule keeps the C01 tree invariant, hence the three consistency clauses at quiescence. The Go memory model, the race detector and the scheduler are outside the model: -race stress in child processes (pair matrix + random program sets, watchdog for deadlocks, race-report parser) and a post-quiescence consistency sweep search for failing executions.',
+ 'C04': 'PARTIAL. Coq theorem: every history of a machine whose calls take effect in one atomic step of the sequential model is linearizable (any threads, any schedule); methods with several critical sections are modelled by explicit section tables whose shape is read from the source on every run (today: all in the one-section position, by reflexivity facts), with refutation theorems for every split shape. Tie/search: concurrent histories of the real MemMapFs are searched for a linearization against the EXTRACTED sequential model (verified checker): stress and window programs under real preemption, and an instrumented, lock-aware cooperative scheduler (every lock acquisition is a switching point) that explores every schedule of 325 fixed window programs under a preemption bound and random schedules elsewhere; direct checks of the exactly-one-winner and torn-read clauses. Outside the Coq model: which Go lock protects which section against which handle operation.',
  'C05': 'Coq theorems for ANY base satisfying contract K and any overlay: every call CopyOnWriteFs/UnionFile/copy-up makes on the base is one a ReadOnlyFs would forward, hence the base view is frozen over all op sequences and flag words; K proved for MemMapFs. Tie: cow(mem,mem) differential against the model; oracle: deep snapshot of the base before/after every step incl. all 4096 combinations of 12 O_* bits.',
  'C06': 'Coq theorems over arbitrary inner filesystems: lookup is overlay-then-base, merged listing is duplicate-free union with overlay winning, pages partition the listing, Readdir(-1) consumes it; copy-up (any depth of missing overlay directories, any spelling), write/read-back against the C02 byte array (all flag words, all handle-method sequences) and failed-call-leaves-view-unchanged (all Fs and handle methods) proved for MemMapFs layers in every state satisfying the C01 invariant; one excluded corner refuted with a replayed witness (base directory carrying bytes). Tie + oracle: union view compared with overlay-over-base computed from direct dumps of both layers after every step, listings in pages (incl. huge counts), entries vs Stat, copy-up of multi-block files, many-entry directories, kind-conflict layers, an OsFs overlay scenario.',
  'C07': 'Coq theorems for ANY source with contract K (proved for MemMapFs, inherited through BasePathFs/ReadOnlyFs): mutators return EPERM without consulting the source, reads are transparent, the source view is frozen over all op sequences and all integer flag values. Tie: differential on ro(mem), ro(bp(mem)), ro(ro(mem)); oracle: deep source snapshot per step, flag sweep.',
@@ -27,7 +27,7 @@ LEVEL_TEXT = {
  'C14': 'Coq theorems for all archives and read programs: reads through any interleaving of handles equal the read-only byte-array spec, no panics, entries found under cleaned names, listings are exactly the children, mutators fail without effect (zipfs and tarfs models). Tie: archives written with archive/zip (Store, Deflate) and archive/tar; oracle: the known entry list.',
  'C15': 'Coq theorems on the IOFS/FromIOFS model: ValidPath characterisation and rejection, sorted complete ReadDir, paging, read/seek/ReadAt agreement (via C02), FromIOFS rejects every mutation. Tie: direct clause checks on generated trees and stacks; search oracle: testing/fstest.TestFS and the generic io/fs helpers.',
  'C16': 'Coq theorems: afero.Walk = filepath.Walk as functions of (tree, root, callback machine, state) for all inputs; afero.Glob = filepath.Glob for EVERY tree and EVERY pattern (escapes and malformed patterns included; both transcribed from source, Match shared) iff the two switches read from match.go are on. Tie: afero on MemMapFs/BasePathFs/CopyOnWriteFs and the real path/filepath on a mirrored temp dir against both transcriptions.',
- 'C17': 'Coq theorems: the windowed search equals bytes.Contains on non-empty needles for every content, needle list and even window factor; WriteFile/WriteReader/SafeWriteReader followed by ReadFile return the bytes given on the MemMapFs model, SafeWriteReader leaves existing files untouched. Tie: exhaustive small contents/needles, boundary-planted matches, payload sizes 0..70000 over wrapper stacks.',
+ 'C17': 'Coq theorems: the windowed search equals bytes.Contains on non-empty needles for every content, needle list and even window factor, and for every behaviour of the reader (any sequence of short reads, zero-byte reads and EOF placements; io.ReadAtLeast transcribed); WriteFile/WriteReader/SafeWriteReader followed by ReadFile return the bytes given on the MemMapFs model, SafeWriteReader leaves existing files untouched. Tie: exhaustive small contents/needles, boundary-planted matches, chunking oracles replayed on the implementation with read-call counts compared, long files, large needles, payload sizes 0..70000 over wrapper stacks, Afero methods, OsFs spellings.',
  'C18': 'Coq theorems: candidate names have the documented shape, a successful TempFile/TempDir name is fresh, inside the directory, and nothing else changes (contract form + MemMapFs instance), successive successes are pairwise distinct for any pre-existing set; the concurrent clause reduces to atomic exclusive create (C04). Tie: LCG constants from the source, VerifSetRandNum so model and code draw the same candidates, pre-created colliding candidates, real concurrent callers on MemMapFs and OsFs.',
  'C19': 'Coq theorems on the sftpfs model over an SFTP server model: server content is exactly what the reported write counts account for, reads/seeks/stat equal the byte-array spec, MkdirAll creates ancestors, rename/remove/stat delegate. Tie: sftpfs over an in-process pkg/sftp request server, server content read back through a second client; oracle from reported counts only.',
  'C20': 'Coq theorems on the gcsfs model over an object-store model (configuration regenerated from gcsfs/*.go): C20_data_exact for all in-class op sequences (store holds the byte-array result after Close, reads return it), a name is a folder iff objects exist below it (every layout), listing once each, Remove refuses non-empty folders, RemoveAll removes exactly the subtree for every store of the layout class at every nesting depth. Tie: gcsfs over an injected in-memory object store with GCS semantics; oracle: object bytes read directly from the store.',
